@@ -513,6 +513,109 @@ def compare_polar(chk, T, n, rng, families=POLAR_FAMILIES, right_singular_open=T
     return bad, known
 
 
+# --------------------------------------------------------------------------
+# magnitudes: the kernels are homogeneous -- nothing may depend on the unit the numbers are expressed in
+# --------------------------------------------------------------------------
+MAG_EXPONENTS = (-60, -50, -40, -34, -30, -20, -10, 10, 20, 30, 40, 60)
+MIXED_TINY = (3e-11, 2.0 ** -40, 1e-15, 1e-30, 1e12)
+HOMOGENEITY = {"invariants": None, "decompose": 1, "mono": 1, "ortho": 1, "tetr": 1, "hex": 1, "upper3": 1, "upper6": 1,
+               "vte": 1, "etv": 1, "m2v": 1, "v2m": 1, "rotate": 1}       # degree in the (first) argument; invariants: (1, 2, 3)
+COPY_LIKE = ("vte", "etv", "m2v", "v2m", "mono", "ortho", "upper3", "upper6")   # every output entry is one input entry
+                                                                                # times a constant (or a mean of equal entries)
+
+
+def mixed_inputs(T, rng):
+    """generic inputs of ordinary size with ONE entry (and its symmetric partners) of a very different magnitude"""
+    t = float(rng.choice(MIXED_TINY)) * float(rng.choice([-1.0, 1.0]))
+    M = sym6(rng)
+    i, j = sorted(int(v) for v in rng.integers(0, 6, size=2))
+    M[i, j] = M[j, i] = t
+    x = rng.normal(size=21) * 100
+    x[int(rng.integers(0, 21))] = t
+    A = rng.normal(size=(3, 3)) * 10
+    A[int(rng.integers(0, 3)), int(rng.integers(0, 3))] = t
+    return {"decompose": [M], "mono": [x], "ortho": [x], "tetr": [x], "hex": [x], "upper3": [A], "upper6": [M.copy()],
+            "vte": [M], "etv": [np.asarray(T.voigt_to_elastic_tensor(M.copy()), dtype=float)], "m2v": [M], "v2m": [x]}, t
+
+
+def compare_magnitudes(chk, T, n, rng):
+    """(a) every kernel on integer-valued inputs scaled by 2^k, k in MAG_EXPONENTS (+ one random k in -60..60): the
+    implementation vs the extracted model with a tolerance relative to THE SCALE OF THE INPUT (no absolute floor), and
+    exact homogeneity impl(2^k x) = 2^(k deg) impl(x) (scaling by a power of two commutes with every operation);
+    (b) generic inputs with one entry of a very different magnitude (3e-11, 2^-40, 1e-15, 1e-30, 1e12): implementation vs
+    model, entry by entry RELATIVE for the copy-like kernels, relative to the input scale for the others.
+    returns bad"""
+    ent = entries(T)
+    bad = []
+    hist = chk.cov.setdefault("magnitude_histogram", {})
+
+    def run(name, fn, args):
+        try:
+            return ("OK", np.asarray(fn(*[a.copy() for a in args]), dtype=float).reshape(-1))
+        except Exception as e:  # noqa: BLE001
+            return ("ERR", type(e).__name__, str(e)[:160])
+
+    for _ in range(n):
+        base = int_inputs(T, rng)
+        ks = list(MAG_EXPONENTS) + [int(rng.integers(-60, 61))]
+        jobs = []
+        for name, args in base.items():
+            if name == "rotate":
+                args = [args[0], haar(rng)]
+            for k in ks:
+                sc = 2.0 ** k
+                sargs = [args[0] * sc] + [a.copy() for a in args[1:]]
+                jobs.append((name, k, args, sargs, np.concatenate([a.reshape(-1) for a in sargs])))
+        mres = common.run_model([common.model_line(nm, [], x) for nm, _, _, _, x in jobs], group=GROUP)
+        ref = {}
+        for (name, k, args, sargs, x), m in zip(jobs, mres):
+            fn = ent[name][1]
+            if name not in ref:
+                ref[name] = run(name, fn, args)
+            r = run(name, fn, sargs)
+            hist[f"2^{k}"] = hist.get(f"2^{k}", 0) + 1
+            chk.note_case((name, "scaled", k, x.tobytes()), nontrivial=r[0] == "OK" and bool(np.any(r[1])),
+                          sample={"entry": name, "scale": f"2^{k}", "impl": r[0] if r[0] == "ERR" else [float(v) for v in r[1][:3]]})
+            c = {"x": x, "scale_exponent": k}
+            if r[0] == "ERR" or m[0] == "ERR" or ref[name][0] == "ERR":
+                if not (r[0] == m[0] == "ERR"):
+                    bad.append((name, c, f"scaled by 2^{k}: implementation {r[:2] if r[0] == 'ERR' else 'OK'}, model {m[:2] if m[0] == 'ERR' else 'OK'}"))
+                continue
+            deg = [1, 2, 3] if name == "invariants" else [HOMOGENEITY[name]] * len(r[1])
+            insc = float(np.abs(args[0]).max()) or 1.0
+            for idx, (a, b, a0, d) in enumerate(zip(r[1], m[1], ref[name][1], deg)):
+                unit = (2.0 ** k * insc) ** d if name == "invariants" else 2.0 ** k * insc
+                if not abs(a - b) <= 1e-11 * unit:
+                    bad.append((name, c, f"scaled by 2^{k}: component {idx}: implementation {a!r} vs model {b!r} (input scale {2.0 ** k * insc:.3g})"))
+                    break
+                want = a0 * 2.0 ** (k * d)
+                if not abs(a - want) <= 1e-13 * abs(want):
+                    bad.append((name, c, f"not homogeneous: component {idx} of f(2^{k} x) = {a!r}, 2^({k}*{d}) f(x) = {want!r}"))
+                    break
+        # (b) one entry of a very different magnitude
+        mixed, t = mixed_inputs(T, rng)
+        names = list(mixed)
+        mres = common.run_model([common.model_line(nm, [], mixed[nm][0].reshape(-1)) for nm in names], group=GROUP)
+        for name, m in zip(names, mres):
+            r = run(name, ent[name][1], mixed[name])
+            x = mixed[name][0].reshape(-1)
+            hist[f"mixed:{t:.0e}"] = hist.get(f"mixed:{t:.0e}", 0) + 1
+            chk.note_case((name, "mixed", x.tobytes()), nontrivial=r[0] == "OK",
+                          sample={"entry": name, "odd_entry": t, "impl": r[0] if r[0] == "ERR" else [float(v) for v in r[1][:3]]})
+            c = {"x": x, "odd_entry": t}
+            if r[0] == "ERR" or m[0] == "ERR":
+                if not (r[0] == m[0] == "ERR"):
+                    bad.append((name, c, f"one entry {t:g}: implementation {r[0]}, model {m[0]}"))
+                continue
+            insc = float(np.abs(x).max())
+            for idx, (a, b) in enumerate(zip(r[1], m[1])):
+                tol = 1e-11 * max(abs(a), abs(b)) if name in COPY_LIKE else 1e-11 * insc
+                if not abs(a - b) <= tol:
+                    bad.append((name, c, f"one entry {t:g}: component {idx}: implementation {a!r} vs model {b!r}"))
+                    break
+    return bad
+
+
 def call(fn, args):
     try:
         return ("OK", np.asarray(fn(*[np.array(a) if isinstance(a, np.ndarray) else a for a in args]),
